@@ -41,6 +41,7 @@ EXTENDS FieldMapRule, Json, SequencesExt
 CONSTANTS MaxMaps,      \* mappings per declaration
           SrcNames, TgtNames,  \* which paths of the universe are in play (names below)
           SrcKind,      \* "struct": the predecessors return VfmSrc | "map": they return a map[string]any, stream-natively, in chunks
+          RepoFixes,    \* repairs already applied to the tree under test (fixed: lines of known_findings.txt): used for the prediction
           VarSet        \* variants of the predecessors' value in play (a case gets "full" and those of VarSet relevant to its sources)
 
 ----------------------------------------------------------------------------
@@ -158,7 +159,8 @@ Assignable(a, b) == IF a.n = b.n THEN "must" ELSE IF b.k = "any" THEN "must" ELS
 Checker(s, t) ==
   LET a == TypeAt(ST, s)
       b == TypeAt(TDst, t)
-  IN IF ~a.ok \/ ~b.ok THEN "bad"
+  IN IF Len(s) = 0 /\ Len(t) = 0 THEN "none"            \* plain edge (AddInput without mappings): typed by the graph, no field mapping
+     ELSE IF ~a.ok \/ ~b.ok THEN "bad"
      ELSE IF b.inter THEN (IF b.t.k = "any" THEN "none" ELSE "bad")
      ELSE IF a.inter THEN "hop"
      ELSE CASE Assignable(a.t, b.t) = "must" -> "none" [] Assignable(a.t, b.t) = "may" -> "may" [] OTHER -> "bad"
@@ -189,15 +191,20 @@ WalkAll(tr, ps, fixed) ==
   IF Len(ps) = 0 THEN [conflict |-> FALSE, trie |-> tr]
   ELSE LET r == Walk(tr, ps[1], 1, fixed) IN IF r.conflict THEN r ELSE WalkAll(r.trie, Tail(ps), fixed)
 RECURSIVE AddInputs(_, _, _)
-AddInputs(tr, decl, fixed) ==   \* one checkAndAddMappedPath call per AddInput, in call order
+AddInputs(tr, decl, Fx) ==   \* one checkAndAddMappedPath call per AddInput, in call order
   IF Len(decl) = 0 THEN FALSE
   ELSE IF <<>> \in DOMAIN tr /\ tr[<<>>] = "T" THEN TRUE
+  ELSE IF Len(decl[1].maps) = 0 /\ "D24" \notin Fx THEN
+       \* AddInput without mappings passes an EMPTY LIST of paths: on a fresh node the root becomes terminal; when field paths have
+       \* been registered before, the loop over the paths has nothing to do and the call is accepted (D24)
+       AddInputs(IF <<>> \in DOMAIN tr THEN tr ELSE (<<>> :> "T"), Tail(decl), Fx)
   ELSE LET tr1 == IF <<>> \in DOMAIN tr THEN tr ELSE (<<>> :> "M")
-           r == WalkAll(tr1, [i \in 1..Len(decl[1].maps) |-> decl[1].maps[i].t], fixed)
-       IN r.conflict \/ AddInputs(r.trie, Tail(decl), fixed)
+           ps == IF Len(decl[1].maps) = 0 THEN << <<>> >> ELSE [i \in 1..Len(decl[1].maps) |-> decl[1].maps[i].t]    \* repaired: the empty path
+           r == WalkAll(tr1, ps, "D6" \in Fx)
+       IN r.conflict \/ AddInputs(r.trie, Tail(decl), Fx)
 ExactDup(M) == \E i, j \in 1..Len(M) : i # j /\ M[i].t = M[j].t
 CompileOutcome(decl, Fx) ==
-  IF AddInputs(<<>>, decl, "D6" \in Fx) THEN "conflict" ELSE IF ExactDup(AllMaps(decl)) THEN "duplicate" ELSE "ok"
+  IF AddInputs(<<>>, decl, Fx) THEN "conflict" ELSE IF ExactDup(AllMaps(decl)) THEN "duplicate" ELSE "ok"
 
 ----------------------------------------------------------------------------
 (* Run: extraction (fieldMap / takeOne) *)
@@ -279,10 +286,16 @@ ConvertAll(taken, Fx) == {ConvertSeq(Zero(TDst), sq, Fx) : sq \in {SetToSeq(take
 
 ----------------------------------------------------------------------------
 (* One call on the compiled workflow: the set of possible outcomes [kind, why, in] *)
+WholeMap == [s |-> <<>>, t |-> <<>>, k |-> "tree", sn |-> "all", tn |-> "all"]
+EffMaps(g) == IF Len(g.maps) = 0 THEN <<WholeMap>> ELSE g.maps
+IsWholePred(decl, p) == \E g \in 1..Len(decl) : decl[g].pred = p /\ Len(decl[g].maps) = 0
+\* a predecessor attached without mappings returns the successor's input type itself (a Dst value)
+PredValD(decl, p, var) == IF IsWholePred(decl, p) THEN WVal(p) ELSE PredVal(p, var)
 \* the edge handler sees, per AddInput edge, the predecessor's value (value mode: the concatenated value) or each of its chunks
 Edges(decl, var, stream) == FlattenSeq([g \in 1..Len(decl) |->
-                               LET cs == IF stream THEN PredChunks(decl[g].pred, var) ELSE <<PredVal(decl[g].pred, var)>>
-                               IN [c \in 1..Len(cs) |-> [maps |-> decl[g].maps, val |-> cs[c]]]])
+                               LET cs == IF Len(decl[g].maps) = 0 THEN <<WVal(decl[g].pred)>>
+                                         ELSE IF stream THEN PredChunks(decl[g].pred, var) ELSE <<PredVal(decl[g].pred, var)>>
+                               IN [c \in 1..Len(cs) |-> [maps |-> EffMaps(decl[g]), val |-> cs[c]]]])
 GroupTaken(E, allowAbsent, Fx) == [e \in 1..Len(E) |-> FieldMapFrom(E[e].maps, 1, E[e].val, allowAbsent, Fx, {})]
 Retag(E, gt) == UNION {{[i |-> <<g, x.i>>, t |-> x.t, v |-> x.v] : x \in gt[g].taken} : g \in 1..Len(E)}
 Outcome(kind, why, in) == [kind |-> kind, why |-> why, in |-> in]
@@ -304,7 +317,7 @@ StreamOutcomes(decl, var, twice, Fx) ==
       conv == [g \in G |-> ConvertAll({[i |-> x.i, t |-> x.t, v |-> x.v] : x \in gt[g].taken}, Fx)]
   IN \* as coded the checker's transform turns the chunk type into `any`: with one predecessor the pre-node converter panics on
      \* the run loop, with several the stream merge in front of it refuses the chunk type (an error)
-     IF "D16" \notin Fx /\ \E g \in 1..Len(decl) : HasChecker(decl[g].maps)
+     IF "D16" \notin Fx /\ \E g \in 1..Len(decl) : HasChecker(EffMaps(decl[g]))
      THEN {IF Len(decl) = 1 THEN Outcome("panic", "stream-checker-chunk-type", {}) ELSE Outcome("err", "stream-checker-chunk-type", {})}
      ELSE IF twice /\ "D7" \notin Fx THEN {Outcome("panic", "converter-applied-twice", {})}
      \* everything below runs inside the lazily evaluated stream conversion, i.e. in the successor's goroutine: a panic there is
@@ -317,7 +330,7 @@ StreamOutcomes(decl, var, twice, Fx) ==
 PredsOf(decl) == {decl[g].pred : g \in 1..Len(decl)}
 ModelLine(decl, var, twice, Fx) ==
   LET c == CompileOutcome(decl, Fx)
-      outs == SetToSeq({[pred |-> p, h |-> p, flat |-> SetToSeq(Flat(PredVal(p, var), <<>>, TRUE))] : p \in PredsOf(decl)})
+      outs == SetToSeq({[pred |-> p, h |-> p, flat |-> SetToSeq(Flat(PredValD(decl, p, var), <<>>, TRUE))] : p \in PredsOf(decl)})
       o == SetToSeq({[pred |-> p, b |-> p, a |-> p] : p \in PredsOf(decl)})
       mk(mode, S) == SetToSeq({[mode |-> mode, kind |-> x.kind, why |-> x.why, in |-> SetToSeq(x.in), got |-> x.kind = "ok", o |-> o] : x \in S})
       ri == IF c = "ok" THEN mk("invoke", InvokeOutcomes(decl, var, twice, Fx)) ELSE <<>>
@@ -327,7 +340,7 @@ ModelLine(decl, var, twice, Fx) ==
 
 \* D19 (absent source key: error in value form, skipped in stream form) is NOT among the repairs: refusing an absent key in the stream
 \* form would break sources that legitimately arrive as sparse chunks (PredChunks); it stays a named deviation (known finding)
-AllFixes == {"D6", "D7", "D16", "D17", "D18", "D20", "D21"}
+AllFixes == {"D6", "D7", "D16", "D17", "D18", "D20", "D21", "D24"}
 
 ----------------------------------------------------------------------------
 (* Generator: declarations grown mapping by mapping *)
@@ -338,30 +351,32 @@ Mk(pr) == [s |-> SrcPath(pr[1]), t |-> TgtPath(pr[2]), k |-> TKind(TgtPath(pr[2]
 NMaps == Len(AllMaps(decl))
 GenInit == decl = <<>> /\ var = "full" /\ phase = "grow"
 \* the first AddInput is from p1; a second one (from p2) may be opened once; a mapping joins the last AddInput call
-AddToLast(pr) == /\ phase = "grow" /\ Len(decl) > 0 /\ NMaps < MaxMaps
+AddToLast(pr) == /\ phase = "grow" /\ Len(decl) > 0 /\ NMaps < MaxMaps /\ Len(decl[Len(decl)].maps) > 0
                  /\ ~(\E i \in 1..Len(decl[Len(decl)].maps) : (decl[Len(decl)].maps[i].sn = "all" /\ pr[2] = "all") \/ (decl[Len(decl)].maps[i].tn = "all" /\ pr[1] = "all"))
                  /\ decl' = [decl EXCEPT ![Len(decl)].maps = Append(@, Mk(pr))] /\ UNCHANGED <<var, phase>>
 OpenGroup(pr) == /\ phase = "grow" /\ Len(decl) < 2 /\ NMaps < MaxMaps
                  /\ decl' = Append(decl, [pred |-> IF Len(decl) = 0 THEN "p1" ELSE "p2", maps |-> <<Mk(pr)>>]) /\ UNCHANGED <<var, phase>>
+\* AddInput(pred) without any mapping (the whole output as the whole input); in play when the whole-input target is
+OpenWhole == /\ phase = "grow" /\ Len(decl) < 2 /\ NMaps < MaxMaps /\ SrcKind = "struct" /\ "all" \in TgtNames
+             /\ decl' = Append(decl, [pred |-> IF Len(decl) = 0 THEN "p1" ELSE "p2", maps |-> <<>>]) /\ UNCHANGED <<var, phase>>
 UsesSrc(names) == \E m \in Range(AllMaps(decl)) : \E n \in names : IsPrefix(SrcPath(n), m.s) /\ n # "all"
 Relevant == IF SrcKind = "map" THEN {"dense", "sparse"} ELSE {"full"} \cup (VarSet \cap
                ((IF UsesSrc({"BPS"}) THEN {"nilB", "nilBP"} ELSE {}) \cup (IF UsesSrc({"Mk"}) THEN {"nokey", "nilM"} ELSE {})
                \cup (IF UsesSrc({"XIS"}) THEN {"Xptr", "Xmap", "Xmapmap", "Xmapint", "Xstr", "Xnil"} ELSE {})
                \cup (IF UsesSrc({"AX"}) THEN {"AXint", "AXnil"} ELSE {})))
 Finish(v) == /\ phase = "grow" /\ Len(decl) > 0 /\ v \in Relevant /\ var' = v /\ phase' = "done" /\ UNCHANGED decl
-GenNext == (\E pr \in Pairs : AddToLast(pr) \/ OpenGroup(pr)) \/ (\E v \in Variants \cup {"dense", "sparse"} : Finish(v))
+GenNext == (\E pr \in Pairs : AddToLast(pr) \/ OpenGroup(pr)) \/ OpenWhole \/ (\E v \in Variants \cup {"dense", "sparse"} : Finish(v))
 GenSpec == GenInit /\ [][GenNext]_vars
 
 Reasons(line) == {r[2] : r \in Judge(line)}
 \* Impl with every proposed repair satisfies the rule (also with a second Compile)
-RepoFixes == {"D6", "D7", "D16", "D17", "D18", "D20"}
 Allowed == IF var \in {"nokey", "nilM"} THEN {"missing-source-handled-differently"} ELSE {}
 FixedDesignHolds == phase = "done" => (Reasons(ModelLine(decl, var, FALSE, AllFixes)) \subseteq Allowed /\ Reasons(ModelLine(decl, var, TRUE, AllFixes)) \subseteq Allowed)
 \* the unrepaired Impl: what it predicts is printed with the case (pred) and compared with the verdict on the real code
 Emit == phase = "done" =>
   PrintT(<<"CASE", ToJson([decl |-> [g \in 1..Len(decl) |-> [pred |-> decl[g].pred, maps |-> [i \in 1..Len(decl[g].maps) |->
                                        [s |-> decl[g].maps[i].s, t |-> decl[g].maps[i].t, k |-> decl[g].maps[i].k]]]],
-                           var |-> var, chk |-> \E g \in 1..Len(decl) : HasChecker(decl[g].maps), pred |-> SetToSeq(Reasons(ModelLine(decl, var, FALSE, {}))),
+                           var |-> var, chk |-> \E g \in 1..Len(decl) : HasChecker(EffMaps(decl[g])), pred |-> SetToSeq(Reasons(ModelLine(decl, var, FALSE, {}))),
                            pred2 |-> SetToSeq(Reasons(ModelLine(decl, var, TRUE, {}))),
                            \* the same for the tree with the repairs that have been applied upstream of this check (fixed: lines)
                            predf |-> SetToSeq(Reasons(ModelLine(decl, var, FALSE, RepoFixes))),
